@@ -66,6 +66,9 @@ func bubble(t *testing.T, f func()) (res bubbleResult) {
 // data during shrinking, Skip).
 func (r bubbleResult) rethrow() {
 	if r.Panicked {
+		if _, ok := r.Value.(error); ok || fmt.Sprintf("%T", r.Value) == "string" {
+			panic(fmt.Sprintf("panic on the root goroutine of the bubble: %v\n%s", r.Value, r.Stack))
+		}
 		panic(r.Value)
 	}
 }
